@@ -1,40 +1,67 @@
 import ScryerModel.Drv.Util
 import ScryerModel.Model.Embed
-/- drv_C28: `hist <id> <clear 0|1> <k>:<ev> <ev>…|<k>:<ev>…`  with ev = `a<0|1><name>` / `e<name>`;
-   prints the items delivered per query: `A<name>` `E<name>` `F`, queries separated by ` | `.
-   `spec <id> <same history>` prints the specification (prefixes of the stand-alone streams). -/
+/- drv_C28
+   `hist <id> <clearBall 0|1> <discardOnDrop 0|1> <db> <k>:<tpl>|<k>:<tpl>|…`
+       runs the history on the protocol model (`runHistory`) from a fresh machine with database <db>
+   `spec <id> <db> <same history>`
+       prints the specification (`specHistory`: every query judged on its own)
+   <db>  = comma separated integers, `-` for the empty database
+   <tpl> = space separated words, see `tpl?`
+   output: items of each query joined by ` ;; `, queries joined by ` | `, then ` # <final db>`
+           (`hist` also appends ` # depth=<stack height> ball=<0|1>`).                                -/
 open Scryer.Drv Scryer.Embed
 
-def ev? (s : String) : Option Ev :=
-  match s.toList with
-  | 'a' :: '1' :: r => some (.ans (String.ofList r) true)
-  | 'a' :: '0' :: r => some (.ans (String.ofList r) false)
-  | 'e' :: r => some (.exc (String.ofList r))
+def ints? (s : String) : Option (List Int) :=
+  if s == "-" then some [] else (s.splitOn ",").mapM parseInt?
+
+def tpl? : List String → Option Tpl
+  | "pure" :: e :: as =>
+      let e' : Option PEnd :=
+        if e == "det" then some .det else if e == "fails" then some .fails
+        else if e.startsWith "throws=" then some (.throws ((e.drop 7).toString)) else none
+      e'.map fun e'' => .pure as e''
+  | ["enum"] => some .enum
+  | ["addz", n] => (parseInt? n).map .addz
+  | ["adda", n] => (parseInt? n).map .adda
+  | ["retr"] => some .retr
+  | ["retrGt", n] => (parseInt? n).map .retrGt
+  | ["enumAdd", d] => (parseInt? d).map .enumAdd
+  | ["enumAddLt", d, n] => do some (.enumAddLt (← parseInt? d) (← parseInt? n))
+  | ["enumThrow", n] => (parseInt? n).map .enumThrow
+  | ["addThrow", n] => (parseInt? n).map .addThrow
+  | ["enumOrThrow"] => some .enumOrThrow
+  | ["membAdd", xs] => (ints? xs).map .membAdd
+  | ["pairs", xs, ys] => do some (.pairs (← ints? xs) (← ints? ys))
+  | ["pairsAdd", xs, ys] => do some (.pairsAdd (← ints? xs) (← ints? ys))
+  | ["snap"] => some .snap
+  | ["clear"] => some .clear
+  | ["has", n] => (parseInt? n).map .has
+  | ["retrThrow", n] => (parseInt? n).map .retrThrow
   | _ => none
 
-def query? (s : String) : Option (Script × Nat) :=
+def query? (s : String) : Option (Query Db × Nat) :=
   match s.splitOn ":" with
   | k :: rest =>
-      match k.toNat?, (words (":".intercalate rest)).mapM ev? with
-      | some kk, some evs => some (evs, kk)
+      match k.toNat?, tpl? (words (":".intercalate rest)) with
+      | some kk, some t => some (t.sem, kk)
       | _, _ => none
   | _ => none
 
-def showItem : Item → String
-  | .answer a => "A" ++ a
-  | .exception b => "E" ++ b
-  | .falseEnd => "F"
-
 def showHist (r : List (List Item)) : String :=
-  " | ".intercalate (r.map fun items => " ".intercalate (items.map showItem))
+  " | ".intercalate (r.map fun items => " ;; ".intercalate (items.map showItem))
 
 def main : IO Unit := runDriver fun
-  | "hist" :: _ :: clear :: h :: _ =>
-      match (h.splitOn "|").mapM query? with
-      | some qs => showHist (runHistory (clear == "1") Mach.fresh qs)
-      | none => "bad-op"
-  | "spec" :: _ :: h :: _ =>
-      match (h.splitOn "|").mapM query? with
-      | some qs => showHist (specHistory qs)
-      | none => "bad-op"
+  | "hist" :: _ :: clear :: disc :: db :: h :: _ =>
+      match ints? db, (h.splitOn "|").mapM query? with
+      | some d, some qs =>
+          let r := runHistory { clearBall := clear == "1", discardOnDrop := disc == "1" } (Mach.fresh d) qs
+          showHist r.1 ++ " # " ++ showList r.2.db ++ " # depth=" ++ toString r.2.stack.length
+            ++ " ball=" ++ (if r.2.ball.isSome then "1" else "0")
+      | _, _ => "bad-op"
+  | "spec" :: _ :: db :: h :: _ =>
+      match ints? db, (h.splitOn "|").mapM query? with
+      | some d, some qs =>
+          let r := specHistory d qs
+          showHist r.1 ++ " # " ++ showList r.2
+      | _, _ => "bad-op"
   | _ => "bad-op"
